@@ -40,7 +40,9 @@ RULE = ("measure: every T in 0..60 (130 thorough) x sampling period none,1..12 (
         "scaled per slot, offsets captured at construction, get_offset() of every slot checked after every step); generic: real generic Qmc samplers with a non-zero energy offset of either "
         "sign (built with make_*_interaction_and_offset and by into_qmc, with and without longitudinal field) through "
         "timesteps / timesteps_sample / timesteps_measure and both tempering drivers (offset differing from slot to slot), "
-        "returned energy vs -<n>/beta + get_offset() from a manual timestep loop; itime: imaginary_time_fold on real Ising and generic samplers; "
+        "returned energy vs -<n>/beta + the DOCUMENTED offset from a manual timestep loop (Ising: sum|J| + N(Gamma+|h|) from the "
+        "constructor arguments, h of both signs; generic: minus the sum of the smallest diagonal entries of the _and_offset terms "
+        "the harness registered, stored matrices checked entry by entry; get_offset() is only compared against these); itime: imaginary_time_fold on real Ising and generic samplers; "
         "edge: excluded inputs run once. Non-trivial = at least one sample taken (measure) / at least one replica and "
         "one step (temper) / at least one operator (itime); distinct = distinct full input line.")
 
